@@ -3,5 +3,5 @@ from common import *  # noqa
 
 
 def regenerate():
-    changed = []
-    return changed
+    regenerate_all()
+    return []
